@@ -109,21 +109,21 @@ func ruleR05_1(w *World, r *Report) {
 		}
 		return nil
 	}
-	chk, excl, syn, recv := get("checkOptionAndError"), get("excludeDuplicatedOperations"), get("syncCheckPoint"), get("ReceiveRemoteModelOperations")
-	if chk == nil || excl == nil || syn == nil || recv == nil {
-		r.Lost("ApplyPushPullPack: checkOptionAndError, excludeDuplicatedOperations, syncCheckPoint, ReceiveRemoteModelOperations")
+	chk, excl, syn, upd, recv := get("checkOptionAndError"), get("excludeDuplicatedOperations"), get("syncCheckPoint"), get("updateStateOfDatatype"), get("ReceiveRemoteModelOperations")
+	if chk == nil || excl == nil || syn == nil || recv == nil || upd == nil {
+		r.Lost("ApplyPushPullPack: checkOptionAndError, excludeDuplicatedOperations, syncCheckPoint, updateStateOfDatatype, ReceiveRemoteModelOperations")
 		return
 	}
 	steps := []struct {
 		name string
 		prev *ssa.Call
 		c    *ssa.Call
-	}{{"excludeDuplicatedOperations", chk, excl}, {"syncCheckPoint", excl, syn}, {"ReceiveRemoteModelOperations", syn, recv}}
+	}{{"excludeDuplicatedOperations", chk, excl}, {"syncCheckPoint", excl, syn}, {"updateStateOfDatatype", syn, upd}, {"ReceiveRemoteModelOperations", upd, recv}}
 	for _, s := range steps {
 		cons := "WiredDatatype.ApplyPushPullPack/" + s.name
 		switch {
 		case !instrDominates(s.prev, s.c):
-			r.Bad(cons, u.Pos(s.c.Pos()), s.name+" is not preceded by "+calleeName(s.prev)+" on every path (the duplicate computation must read the old checkpoint; operations must be applied after it)")
+			r.Bad(cons, u.Pos(s.c.Pos()), s.name+" is not preceded by "+calleeName(s.prev)+" on every path (the duplicate computation must read the old checkpoint; the subscribe reset of state, buffer and operation id must precede the application of the pulled operations)")
 		case !guardedByNilErr(fn, s.c, chk):
 			r.Bad(cons, u.Pos(s.c.Pos()), s.name+" also runs when the response was an error pack: a refused push-pull must change nothing on the client")
 		default:
@@ -197,7 +197,7 @@ func ruleR05_2(w *World, r *Report) {
 // R05.5 checkpoint arithmetic in normal form
 func ruleR05_5(w *World, r *Report) {
 	u := w.Client()
-	r.Rule("R05.5", "the integer expressions the checkpoint protocol rests on have the intended normal forms (pulled count, skipped prefix, request checkpoint, first pushed index, subscribe reset, server end-of-log after a pull)", 9)
+	r.Rule("R05.5", "the integer expressions the checkpoint protocol rests on have the intended normal forms (pulled count, skipped prefix, request checkpoint, first pushed index, subscribe reset, server end-of-log after a pull)", 8)
 	wd := func(name string) *ssa.Function { return u.Fn(pDatatypes, "WiredDatatype", name) }
 
 	// (1) pulled = (new.Sseq - old.Sseq) - (new.Cseq - old.Cseq)
@@ -215,7 +215,7 @@ func ruleR05_5(w *World, r *Report) {
 	if fn := wd("excludeDuplicatedOperations"); fn == nil {
 		r.Lost("WiredDatatype.excludeDuplicatedOperations")
 	} else {
-		ab := rewriter(`\$0\.calculatePullingOperations\(\$1\.CheckPoint\)`, "PULLED", `len\(\$1\.Operations\)`, "LEN")
+		ab := rewriter(`phi\(\$0\.calculatePullingOperations\(\$1\.CheckPoint\)\|0\)`, "PULLED0", `\$0\.calculatePullingOperations\(\$1\.CheckPoint\)`, "PULLED", `len\(\$1\.Operations\)`, "LEN")
 		n := 0
 		forEachInstr(fn, func(in ssa.Instruction) {
 			sl, ok := in.(*ssa.Slice)
@@ -228,8 +228,9 @@ func ruleR05_5(w *World, r *Report) {
 				low = abstractLin(canonLinear(sl.Low), ab).String()
 			}
 			paths, okp := pathLinCmps(fn, sl, ab)
-			good := okp && low == "+LEN-PULLED" && sl.High == nil && allPathsHave(paths, "-LEN+PULLED < 0")
-			r.Check(good, "excludeDuplicatedOperations/skip", u.Pos(sl.Pos()), "skip = len(ops)-pulled when len(ops) > pulled", fmt.Sprintf("the skipped prefix is [%s:] under %v; expected [len(ops)-pulled:] under len(ops) > pulled", low, paths))
+			good := okp && low == "+LEN-PULLED0" && sl.High == nil && allPathsHave(paths, "-LEN+PULLED0 < 0")
+			clamped := strings.Contains(low, "PULLED0") // max(pulled, 0): a stale response yields a negative count
+			r.Check(good, "excludeDuplicatedOperations/skip", u.Pos(sl.Pos()), "skip = len(ops)-max(pulled,0) when len(ops) > pulled", fmt.Sprintf("the skipped prefix is [%s:] under %v (pulled clamped at 0: %v); expected [len(ops)-pulled:] under len(ops) > pulled with a negative count (stale response) clamped to 0", low, paths, clamped))
 		})
 		if n == 0 {
 			r.Lost("excludeDuplicatedOperations: reslicing of the pulled operations")
